@@ -54,6 +54,11 @@ def prove_id(expr, tol, pcs, label):
     """identity expected to hold exactly (Kelvin-Mandel constant exact): try the equality first (goal `expr != 0`, decided fast by nlsat on
     equality regions), then the tolerance form"""
     expr = as_sym(expr)
+    from engine.oblig import prove_zero_on_equalities
+
+    o = prove_zero_on_equalities(expr, pcs)
+    if o is not None:
+        return o
     o = prove_abs_le(expr, 0, pcs, label, timeout_ms=10000)
     if o.status == "held":
         return o
@@ -372,6 +377,8 @@ def job_history(cfg):
         with facade.symbolic():
             s2 = Simulations.PhaseField(mesh, pfm, verbosity=False)
             calc2 = s2._PhaseField__Calc_psiPlus_e_pg
+            # convergence counters that Solve() would have set (Save_Iter stores them)
+            s2._PhaseField__Niter, s2._PhaseField__timeIter, s2._PhaseField__convIter = 0, 0.0, 0.0
             for u in U:
                 s2._Set_solutions(s2.ProblemTypes.elastic, u.copy())
                 eps = s2._Calc_Epsilon_e_pg(u.copy(), g, "mass")
@@ -388,6 +395,7 @@ def job_history(cfg):
         full = {kk: float(v) for kk, v in {**c.shadow, **(env or {})}.items()}
         s2 = Simulations.PhaseField(mesh, pfm, verbosity=False)
         calc2 = s2._PhaseField__Calc_psiPlus_e_pg
+        s2._PhaseField__Niter, s2._PhaseField__timeIter, s2._PhaseField__convIter = 0, 0.0, 0.0
         Hs, Ps = [], []
         for u in U:
             uf = np.array([float(as_sym(x).eval(full)) for x in u])
